@@ -96,6 +96,16 @@ def _noop_check(ws, scn, path, viols, detail):
     return r
 
 
+def _unordered(models):
+    """Normalised model specs with models and fields sorted by name: what
+    a signature comparison sees (a field deleted and re-added identically
+    ends up last in the table, but the signature is unchanged)."""
+    out = spec.normalised_models(models)
+    for m in out:
+        m['fields'] = sorted(m['fields'], key=lambda f: f['name'])
+    return sorted(out, key=lambda m: m['name'])
+
+
 def execute(scn):
     P = scn['project']
     sts = proj.states(P)
@@ -119,9 +129,9 @@ def execute(scn):
             for k2 in range(j + 1, n + 1):
                 la, lb = proj.label_of(P, a, j), proj.label_of(P, a, k2)
                 if la in sts[j]['apps'] and lb in sts[k2]['apps'] and \
-                        spec.canon(spec.normalised_models(
+                        spec.canon(_unordered(
                             sts[j]['apps'][la]['models'])) == spec.canon(
-                        spec.normalised_models(
+                        _unordered(
                             sts[k2]['apps'][lb]['models'])) and \
                         history.mutations_between(P, j, k2, app=a):
                     unchanged = True
